@@ -545,6 +545,58 @@ def check_position_stores(ctx, cfg, rule="C03.Q"):
     return n
 
 
+def check_owner_constructions(ctx, cfg, rule="C03.C"):
+    """Wherever a tracked owner is put together (an aggregate of its type, in any body of the crate), its cursors describe its storage: a builder
+    starts with nothing written (position 0), a consumer with nothing consumed (position 0: it claims the whole array it was given), the
+    by-value iterator claims either everything (index 0, index_back N) or nothing (index == index_back: storage still to be filled). A second
+    constructor that starts anywhere else leaks, or claims, elements that were never accounted for."""
+    db = ctx.db(cfg)
+    owners = owner_adts(db)
+    n = 0
+    for b in db.bodies:
+        if b["kind"] not in ("Fn", "AssocFn", "Closure"):
+            continue
+        if not any(st_.get("k") == "assign" and isinstance(st_.get("rv"), dict) and st_["rv"].get("k") == "agg" for blk in b["mir"]["blocks"] for st_ in blk.get("stmts", [])):
+            continue
+        a = ctx.analysis(cfg, b["key"])
+        for g in a.aggregates:
+            kd = g["kind"]
+            if not (isinstance(kd, tuple) and kd and kd[0] == "adt" and kd[1] in owners):
+                continue
+            if a.blocks[g["site"][0]]["cleanup"]:
+                continue
+            o = owners[kd[1]]
+            tail = kd[1].split("::")[-1]
+            sig = b.get("sig") or {}
+            if sig.get("unsafe") and isinstance(sig.get("output"), dict) and sig["output"].get("k") == "adt" and sig["output"].get("def") == kd[1]:
+                # an `unsafe fn` that returns the owner it builds: what its cursors must say is that function's safety contract with its caller
+                ctx.note("%s %s: %s constructed in an unsafe constructor - its initial cursors are the caller's obligation, not judged" % (rule, b["key"], tail))
+                continue
+            vals = [g["ops"][f_] if f_ < len(g["ops"]) else None for f_ in o["pos"]]
+            n += 1
+            if not all(v is not None and v[0] == "I" for v in vals):
+                ctx.ob(rule, "%s#%s@%s" % (b["key"], tail, g["site"][0]), UNKNOWN, "%s constructed with a cursor that is not an integer term: %s" % (tail, [vstr(v) if v is not None else None for v in vals]), at=b["at"], cfg=cfg, frozen=True)
+                continue
+            pf = a.poly_facts(g["facts"])
+            lt = None
+            for L in range(len(a.locals)):
+                if local_adt(a, L) == kd[1]:
+                    lt = a.local_ty(L)
+                    break
+            N_ = a.tenv.length([x for x in lt["args"] if x.get("k") != "region"][-1]) if lt is not None else None
+            if len(vals) == 1:
+                ok = prove(("==", vals[0][1]), pf)
+                det = "position = %r at construction; required 0 (nothing written / nothing consumed yet)" % (vals[0][1],)
+            else:
+                lo, hi = vals[0][1], vals[1][1]
+                empty = prove(("==", hi - lo), pf)
+                whole = N_ is not None and prove(("==", lo), pf) and prove(("==", hi - N_), pf)
+                ok = empty or whole
+                det = "claims [%r, %r) at construction; required: everything [0, N) or nothing (index == index_back)" % (lo, hi)
+            ctx.ob(rule, "%s#%s@%s" % (b["key"], tail, g["site"][0]), ok, det, at=b["at"], cfg=cfg, frozen=False)
+    return n
+
+
 def has_generic_ty(t):
     if not isinstance(t, dict):
         return False
@@ -636,10 +688,14 @@ def check(ctx):
         # tiling instances (shared with C09)
         n = 0
         n += c09.check_owned_ops(ctx, cfg, rule="C03.T")
+        from . import c11 as _c11
+        n += _c11.check_owned(ctx, cfg, rule="C03.T")   # by-value flatten / unflatten: every element moved exactly once, none dropped here
         n += check_assume_init(ctx, cfg)
         check_no_conjured_elements(ctx, cfg)
         check_vec_disown(ctx, cfg)
         check_position_stores(ctx, cfg)
+        nc = check_owner_constructions(ctx, cfg)
+        ctx.floor("C03.C", "constructions of tracked owners (%s)" % cfg, nc, 4)
         ctx.floor("C03.T", "tiling / whole-value reinterpretation instances (%s)" % cfg, n, 11)
         p = c04.check_closures(ctx, cfg, want_normal=True, rule_p="C03.P")
         ctx.floor("C03.P", "element-moving closures (%s)" % cfg, p, 1)
